@@ -264,14 +264,14 @@ ValKind op_value_kind(int op) {
     case OP_AVG_BIINV: case OP_AVG: case OP_AVG_FL: case OP_AVG_FR:
     case OP_M_ASSIGN: case OP_M_SETIDENTITY: case OP_M_SETRANDOM: case OP_M_PLUSEQ: case OP_M_MULEQ:
     case OP_M_NORMALIZE: case OP_M_COEFFWRITE: case OP_M_ALIAS: case OP_M_ASSIGN_EIGEN: case OP_M_MOVE_ASSIGN:
-    case OP_M_SUBVIEW_WRITE:
+    case OP_M_SUBVIEW_WRITE: case OP_M_SETTERS:
       return VK_ELEM;
     case OP_LOG: case OP_LIFT: case OP_RMINUS: case OP_LMINUS: case OP_MINUS: case OP_SUB:
     case OP_BRACKET: case OP_TPLUS: case OP_TMINUS: case OP_T_NEG: case OP_T_SCALE: case OP_T_ADD_T: case OP_T_SUB_T:
     case OP_T_CASTRT: case OP_JT_MUL: case OP_ZERO: case OP_VEE: case OP_BRACKET_S: case OP_T_RANDOM:
     case OP_TM_ASSIGN: case OP_TM_SETZERO: case OP_TM_SETRANDOM: case OP_TM_PLUSEQ: case OP_TM_MINUSEQ:
     case OP_TM_MULEQ: case OP_TM_DIVEQ: case OP_TM_STREAM: case OP_TM_LOG_INTO: case OP_TM_ASSIGN_EIGEN:
-    case OP_TM_COEFFWRITE: case OP_TM_SETVEE:
+    case OP_TM_COEFFWRITE: case OP_TM_SETVEE: case OP_TM_BLOCKSET:
       return VK_TAN;
     default: return VK_OTHER;
   }
